@@ -667,6 +667,25 @@ def discharge_call(P, f, sym, c):
                 if have >= 1:
                     return True, "G1: %s() under a dominating len() >= %d test" % (cc.name, have), kind + ":" + cc.name
                 return False, "%s() may be None: no dominating non-emptiness test" % cc.name, kind + ":" + cc.name + ":unguarded"
+            if cc.name in ("pop", "pop_front", "pop_back") and cc.args:
+                # `while !queue.is_empty() { let x = queue.pop().unwrap(); .. }`: a dominating non-emptiness test of the same collection, with nothing
+                # that removes from it in between
+                from unord import Unord as _U
+                rb = _U._base_local(None, f, cc.args[0])
+                for (a_, lab_) in f.edge_dominators(cc.bb):
+                    try:
+                        o_, out_ = f.cond_struct(a_, lab_)
+                    except Exception:  # noqa
+                        continue
+                    while o_[0] == "un" and o_[1] == "Not" and out_ in ("true", "false"):
+                        o_, out_ = o_[2], ("false" if out_ == "true" else "true")
+                    if o_[0] == "call" and o_[1].name == "is_empty" and out_ == "false" and o_[1].args and _U._base_local(None, f, o_[1].args[0]) == rb and rb is not None:
+                        REM = {"pop", "pop_front", "pop_back", "clear", "truncate", "drain", "retain", "remove", "swap_remove", "split_off", "take"}
+                        between = [x for x in f.calls if x.bb != cc.bb and x.bb in f.reach_blocks and x.name in REM and x.args and _U._base_local(None, f, x.args[0]) == rb
+                                   and f.dominates(a_, x.bb) and f.dominates(x.bb, cc.bb)]
+                        if not between:
+                            return True, "G1: %s() under a dominating is_empty() == false test of the same collection" % cc.name, kind + ":" + cc.name
+                return False, "%s() may be None: no dominating non-emptiness test" % cc.name, kind + ":" + cc.name + ":unguarded"
             if cc.name in ("strip_suffix", "strip_prefix"):
                 lit = cc.arg_str(1)
                 view = sym.view_op(cc.args[0])
